@@ -56,12 +56,22 @@ FOCUS = {
 }
 
 
-def gen_case(rng, k, programs=None):
+def gen_case(rng, k, programs=None, decks=None):
   programs = programs or ALL_PROGRAMS
   program = programs[k % len(programs)]
-  want = dict(max=rng.choice([0, 3, 6, 20, 12]), flow=rng.choice([0, 1, 1]), creates=rng.choice([0, 30, 60, 6]), updates=rng.choice([500, 7, 1, 50]),
-              res=rng.choice([0, 0, 1, 10]), whitelist=rng.choice([0, 1]), insecure=rng.choice([0, 0, 1]), forward=rng.choice([1, 1, 0]),
-              lag100=rng.choice([0, 0, 200, 250]), rf=rng.choice([1, 2, 3]), diverse=rng.choice([0, 1]), maxq=rng.choice([10000, 10, 1, 40]),
+  decks = decks if decks is not None else {}
+
+  def deal(dim, values):
+    # every value of a dimension comes up once per len(values) cases (shuffled decks) - 14 independent draws
+    # missed MIN_TIMESTAMP_RESOLUTION = 1 altogether under one seed
+    d = decks.setdefault(dim, [])
+    if not d:
+      d.extend(values)
+      rng.shuffle(d)
+    return d.pop()
+  want = dict(max=deal('max', [0, 3, 6, 20, 12]), flow=deal('flow', [0, 1, 1]), creates=deal('creates', [0, 30, 60, 6]), updates=deal('updates', [500, 7, 1, 50]),
+              res=deal('res', [0, 0, 1, 10]), whitelist=deal('whitelist', [0, 1]), insecure=deal('insecure', [0, 0, 1]), forward=deal('forward', [1, 1, 0]),
+              lag100=deal('lag100', [0, 0, 200, 250]), rf=deal('rf', [1, 2, 3]), diverse=deal('diverse', [0, 1]), maxq=deal('maxq', [10000, 10, 1, 40]),
               mpm=500, picklemax=2 ** 20, blrules=rng.randint(0, 3), wlrules=rng.randint(0, 2))
   names = ['Relay-B.example', '10.0.0.2', 'alpha', '10.0.0.10', 'Zeta', '10.0.0.1']
   rng.shuffle(names)
@@ -182,8 +192,9 @@ def section(ctx, pid, ncases=None):
   n = ncases if ncases is not None else ctx.pick(14, 60)
   recs, texts = [], []
   off = rng.randrange(4)
+  decks = {}
   for k in range(n):
-    program, instance, sections, files, want, tilde = gen_case(rng, k + off, FOCUS.get(pid))
+    program, instance, sections, files, want, tilde = gen_case(rng, k + off, FOCUS.get(pid), decks)
     rep = confsys.boot(ctx.scratch, program, sections, instance=instance, files=files, tag='boot')
     rep['_sections'] = {('%s:%s' % (SECTION[program], instance) if instance else SECTION[program]): sections.get('%s:%s' % (SECTION[program], instance), []) + sections[SECTION[program]]} \
       if not instance else {'x': sections[SECTION[program]] + sections['%s:%s' % (SECTION[program], instance)]}
